@@ -156,9 +156,14 @@ func c16Run(t *testing.T, s *sim.Scn) *sim.Outcome {
 	for i, op := range s.Ops {
 		switch op.K {
 		case "script":
-			k := sim.SubmitKind(op.A % 10)
-			if k == sim.SubBlock {
+			k := sim.SubmitKind(op.A % 12)
+			switch {
+			case k == sim.SubBlock:
 				k = sim.SubTimeout
+			case op.A%12 == 10:
+				k = sim.SubCanceled
+			case op.A%12 == 11:
+				k = sim.SubCanceledWrapped
 			}
 			for _, d := range []*sim.SimDA{d1, d2} {
 				d.SubmitScript = append(d.SubmitScript, sim.SubmitOutcome{Kind: k, N: int(op.B), Advance: op.C%2 == 1})
@@ -167,7 +172,7 @@ func c16Run(t *testing.T, s *sim.Scn) *sim.Outcome {
 		case "rscript":
 			for _, d := range []*sim.SimDA{d1, d2} {
 				h := uint64(op.A % 6)
-				d.ReadScript[h] = append(d.ReadScript[h], sim.ReadOutcome{Kind: sim.ReadKind(1 + op.B%4), Chunk: int(op.C % 2), Flavor: int(op.C>>1) % 4})
+				d.ReadScript[h] = append(d.ReadScript[h], sim.ReadOutcome{Kind: sim.ReadKind(1 + op.B%4), Chunk: int(op.C % 2), Flavor: []int{0, 1, 2, 3, 5, 5}[int(op.C>>1)%6]})
 			}
 			o.Count("scripted-read", 1)
 		case "advance":
@@ -305,7 +310,7 @@ func c16Gen(r *rand.Rand, tier string) *sim.Scn {
 		switch x := r.IntN(100); {
 		case x < 40:
 			if r.IntN(100) < pErr {
-				s.Ops = append(s.Ops, sim.Op{K: "script", A: r.Int64N(10), B: r.Int64N(4), C: r.Int64N(2)})
+				s.Ops = append(s.Ops, sim.Op{K: "script", A: r.Int64N(12), B: r.Int64N(4), C: r.Int64N(2)})
 			}
 			k := "submit"
 			if r.IntN(15) == 0 {
@@ -317,7 +322,7 @@ func c16Gen(r *rand.Rand, tier string) *sim.Scn {
 		case x < 65:
 			s.Ops = append(s.Ops, sim.Op{K: "plant", A: r.Int64N(2), B: r.Int64N(10), C: r.Int64N(20)})
 		case x < 75:
-			s.Ops = append(s.Ops, sim.Op{K: "rscript", A: r.Int64N(6), B: r.Int64N(4), C: r.Int64N(8)})
+			s.Ops = append(s.Ops, sim.Op{K: "rscript", A: r.Int64N(6), B: r.Int64N(4), C: r.Int64N(12)})
 		default:
 			s.Ops = append(s.Ops, sim.Op{K: "retrieve", A: r.Int64N(7)})
 		}
@@ -329,7 +334,7 @@ func TestC16(t *testing.T) {
 	sim.Main(t, &sim.Check{
 		ID:    "C16",
 		Level: "exploration",
-		Rule: "seeded call sequences through the node's helpers on a direct and a proxied instance of identically configured simulated DA layers: submissions of 0-5 blobs with sizes around the limit (0,1,30,59,60,61,100,200 bytes; limit 60/100/250), every submit error of the interface injected at the backing store (timed out, already in mempool, too big, deadline, generic, acknowledgement lost, sequence error, partial acceptance), pre-cancelled contexts, retrievals of heights that are empty / from the future / failing on listing / failing on a Get chunk / holding >100 blobs; " +
+		Rule: "seeded call sequences through the node's helpers on a direct and a proxied instance of identically configured simulated DA layers: submissions of 0-5 blobs with sizes around the limit (0,1,30,59,60,61,100,200 bytes; limit 60/100/250), every submit error of the interface injected at the backing store (timed out, already in mempool, too big, deadline, generic, acknowledgement lost, sequence error, partial acceptance, a cancellation reported by the DA side while the caller's context is live - bare and wrapped), pre-cancelled contexts, retrievals of heights that are empty / from the future / failing on listing / failing on a Get chunk / holding >100 blobs; " +
 			"compared call by call (status code, submitted count, ids, blobs, backing-store contents). distinct = distinct scenario hash; non-trivial = at least 3 compared calls",
 		Assumptions: []string{"the JSON-RPC transport is a real loopback socket (no seam in NewClient); it runs outside the simulated clock", "the two backing stores are separate but identically configured and driven"},
 		Components:  map[string]string{"da/jsonrpc client, server, error mapping": "real (loopback HTTP)", "types.SubmitWithHelpers / RetrieveWithHelpers": "real", "backing DA": "stub (SimDA)"},
